@@ -265,6 +265,9 @@ class OdeModel:
                     return _fold(callee), f_.value
             return None
         func = inline_constants(_copy.deepcopy(self.func), pkg, "TemplateLoader")
+        # the modifier tables walked by key (`for name in ode_modifier: expr = ode_modifier[name]`) are walked by .items()
+        from .normalize import dict_key_loops_to_items
+        func = dict_key_loops_to_items(func)
         # a generator method that hands records to a consuming loop (`for rec in self._iter_terms(..): rhs[rec.row] += ..`) is put
         # back in place, and a namedtuple / dataclass that only carries the values across is replaced by its fields
         from .normalize import inline_generator_loops, scalarise_records, scalarise_objects
